@@ -73,9 +73,13 @@ func (w *world) UDPSend(s *vnet.Sim, k *vnet.Socket, src, dst netip.AddrPort, pa
 }
 
 func (w *world) play(s *vnet.Sim, k *vnet.Socket, src netip.AddrPort, emits []Emit) {
+	w.playAs(s, k, src, emits, k.Task, k.Step)
+}
+
+func (w *world) playAs(s *vnet.Sim, k *vnet.Socket, src netip.AddrPort, emits []Emit, task, step int) {
 	for i := range emits {
 		e := emits[i]
-		e.Class = e.Class + "@" + strconv.Itoa(k.Task) + "." + strconv.Itoa(k.Step) + "." + strconv.Itoa(i)
+		e.Class = e.Class + "@" + strconv.Itoa(task) + "." + strconv.Itoa(step) + "." + strconv.Itoa(i)
 		switch e.Via {
 		case "udp":
 			from, err := netip.ParseAddrPort(e.From)
@@ -142,14 +146,16 @@ func (st *Step) planDelay() time.Duration {
 }
 
 func (w *world) TCPSend(s *vnet.Sim, k *vnet.Socket, payload []byte) {
-	key := [2]int{k.Task, k.Step}
+	// the peer answers the request of the step that wrote it - on a connection the library kept open
+	// from an earlier call, too
+	key := [2]int{k.WTask, k.WStep}
 	n := w.triggered[key]
 	w.triggered[key] = n + 1
-	st := w.step(k.Task, k.Step)
+	st := w.step(k.WTask, k.WStep)
 	if st == nil || st.Kind != "call" || n > 0 {
 		return
 	}
-	w.play(s, k, k.Local(), st.Plan.Emits)
+	w.playAs(s, k, k.Local(), st.Plan.Emits, k.WTask, k.WStep)
 }
 
 func (w *world) TCPClose(s *vnet.Sim, k *vnet.Socket) {}
